@@ -19,7 +19,7 @@ SPEC = dict(
           "regimes present, final-newline variants, BOM?, non-ASCII?, control chars?, pattern kinds, locale) tuples"),
     assumptions=["filler contains no digits/upper-case letters (they could extend a version or form a part name); "
                  "R1 proves every layout unambiguous before the real code runs"],
-    required=["glob_extra_cases", "updates_checked", "eol:LF", "eol:CRLF", "eol:CR", "eol:mixed", "locale_subprocess_runs", "bom_files",
+    required=["glob_extra_cases", "matched_text_repeated_on_the_line", "updates_checked", "eol:LF", "eol:CRLF", "eol:CR", "eol:mixed", "locale_subprocess_runs", "bom_files",
               "unconfigured_files_checked", "k04_evaluations", "no_final_newline_files", "legacy_updates_checked",
               "overlap_cases"],
     anchors=[("rewrite", "detect_line_sep"), ("v2rewrite", "rfd_from_content"), ("v2rewrite", "rewrite_files"),
@@ -163,6 +163,11 @@ def run_overlap(ctx, case):
     pats = [p1, p2] if case["order"] == 0 else [p2, p1]
     lines = ["intro ünï", f"both: x {pre}{cur}{suf} y", "filler", f"only first: {pre}{cur} .", "",
              f"only second: {cur}{suf} .", "tail without newline"]
+    # the text a pattern matched occurs a second time further right on the same line: a pattern is applied once per
+    # line, so the repetition lies outside every matched span and keeps its bytes
+    twice = case.get("rep", 0) % 2 == 0
+    if twice:
+        lines.insert(4, f"twice: {pre}{cur} and again {pre}{cur} ; {cur}{suf} then {cur}{suf} end")
     text = eol.join(lines)
     cfg = (f'[bumpver]\ncurrent_version = "{cur}"\nversion_pattern = "{vp}"\n\n[bumpver.file_patterns]\n'
            '"bumpver.toml" = [\'current_version = "{version}"\']\n"doc.txt" = ['
@@ -177,7 +182,11 @@ def run_overlap(ctx, case):
             ctx.violation("other:overlap_update_failed", f"patterns {pats} on {lines[1]!r}: exit {res.exit_code}, "
                           f"announced {res.record_value('New Version: ')!r} (expected {new!r}): {res.errors()[-2:]}", case=case)
             return
-        want = text.replace(cur, new).encode("utf-8")
+        want_lines = [ln.replace(cur, new) for ln in lines]
+        if twice:
+            want_lines[4] = f"twice: {pre}{new} and again {pre}{cur} ; {new}{suf} then {cur}{suf} end"
+            ctx.count("matched_text_repeated_on_the_line")
+        want = eol.join(want_lines).encode("utf-8")
         if after["doc.txt"] != want:
             ctx.violation("other:overlapping_matches_corrupt_the_line", f"patterns {pats} (order {case['order']}): expected "
                           f"{want!r}, got {after['doc.txt']!r}", case=case)
